@@ -376,6 +376,11 @@ theorem Build.step_grow (ue ua : Nat → Bool) (feat : MimeFeature) (outdir : By
     split
     · rw [← Build.withStatics_out feat b]; exact Grow.refl _
     · rw [Build.withStatics_out]; exact Grow.refl _
+  | failed static path =>
+    simp only [Build.step]
+    cases static
+    · exact Grow.read_print _ _
+    · simp only [if_true]; rw [← Build.withStatics_out feat b]; exact Grow.read_print _ _
 
 theorem Build.foldl_step_grow (ue ua : Nat → Bool) (feat : MimeFeature) (outdir : Bytes) (ops : List Op) (b : Build) :
     Grow b.out (ops.foldl (Build.step ue ua feat outdir) b).out := by
